@@ -204,7 +204,84 @@ def _slip(kind):
     return ("ok", None)
 
 
+XFAMILIES = ["f1_expr", "f2_portrefs", "f3_noconn", "f5_arrays", "f4_bundles", "f6_pairs", "f7_hier", "f9_multifeed"]
+
+
+def _xfam(item):
+    """Cross-family leg: every design of the C01 families (expression trees, port references, no-connects, arrays,
+    bundles, pairs, hierarchies) that the reference semantics calls valid is exported as it is and - from a fresh build -
+    flattened and exported; flatten() may refuse (slices / concatenations), but what it returns must have the leaf
+    devices and the leaf-level net partition of the hierarchical export (which C01 compares with the reference
+    semantics on these very designs), under the ':'-joined path names."""
+    import importlib
+    import hdl21 as h
+    from hdl21.flatten import flatten
+    from ..build import build
+
+    fname, desc = item
+    fam, design = importlib.import_module(f"hv.families.{fname}").design(desc)
+    try:
+        refsem.R(design)
+    except refsem.Invalid:
+        return ("skip", None, fam)
+    try:
+        da, qa = observe.O_pkg(h.to_proto(build(design).top), None)
+    except Exception as e:
+        return ("export_raised", short_exc(e), fam)
+    try:
+        top = build(design).top
+        f = flatten(top)
+    except Exception as e:
+        return ("raised", short_exc(e), fam)
+    for n, i in f.instances.items():
+        if isinstance(i.of, h.Module):
+            return ("bad", f"flattened module still instantiates module {i.of.name} as {n}", fam)
+    if f.instarrays or f.instbundles or f.bundles:
+        return ("bad", "flattened module still holds arrays / instance bundles / bundles", fam)
+    if [(p.name, p.width, p.direction) for p in f.ports.values()] != [(p.name, p.width, p.direction) for p in top.ports.values()]:
+        return ("bad", "ports of the flattened module differ from the ports of the (elaborated) original", fam)
+    try:
+        db, qb = observe.O_pkg(h.to_proto(f), None)
+    except Exception as e:
+        return ("bad", "flattened module cannot be exported / read: " + short_exc(e), fam)
+    ea = {(":".join(p),): v for p, v in da.items()}
+    if len(ea) != len(da):
+        return ("skip", "ambiguous expected names", fam)
+    d = observe.devices_agree(ea, db)
+    if d:
+        return ("bad", d, fam)
+    eq = frozenset(frozenset((((":".join(n[0]),) if n[0] else ()), n[1], n[2]) for n in c) for c in qa)
+    if eq != qb:
+        return ("bad", "leaf-level nets differ: " + str(observe.partition_diff(eq, qb))[:300], fam)
+    return ("ok", None, fam)
+
+
+def run_xfam(ctx):
+    import importlib
+
+    items = []
+    for f in XFAMILIES:
+        its = importlib.import_module(f"hv.families.{f}").items(ctx.tier)
+        if ctx.quick:
+            its = its[ctx.seed % 3::3]
+        items += [(f, d) for d in its]
+    if ctx.quick:
+        ctx.cap("every 3rd design (offset VERIF_SEED) of each C01 family in the cross-family leg of the quick tier")
+    res = ctx.pmap(_xfam, items, chunk=40)
+    for (fname, desc), (status, detail, fam) in zip(items, res):
+        if status in ("skip", "export_raised"):
+            ctx.fam("xfam_" + fname, not_applicable=1)
+            continue
+        ctx.count(states=1, transitions=3, traces_validated_against_impl=1)
+        ctx.fam("xfam_" + fname, **{status: 1})
+        ctx.outcome("xfam:" + status + ":" + fam)
+        if status == "bad":
+            what = "nets differ" if "nets differ" in detail else detail[:50]
+            ctx.violation(dict(leaf="xfam", names=fname, what=what), dict(xfam=[fname, desc]), detail)
+
+
 def run(ctx):
+    run_xfam(ctx)
     items = []
     ch2s = list(itertools.product(*[m for (_i, _p, m) in L2_MENU]))
     chts = list(itertools.product(*[m for (_i, _p, m) in TOP_MENU]))
@@ -252,7 +329,11 @@ def run(ctx):
 
 def replay(body):
     c = body["case"]
-    if "slip" in c:
+    if "xfam" in c:
+        def tup(x):
+            return tuple(tup(y) for y in x) if isinstance(x, list) else x
+        r = _xfam((c["xfam"][0], tup(c["xfam"][1])))[:2]
+    elif "slip" in c:
         r = _slip(c["slip"])
     elif "special" in c:
         r = _special(c["special"])
